@@ -233,8 +233,8 @@ def run_scenarios(w):
                 ran.wait(3)
                 if cls == "from_kafka_batched":
                     # (the commit follows the delivery by one loop callback)
-                    t_end = _time.time() + 3
-                    while not polled and _time.time() < t_end:
+                    t_end = _time.time() + 15       # (generous: it ends as soon as the commit is seen)
+                    while seen and not polled and _time.time() < t_end:
                         _time.sleep(0.005)
                 c1 = w.bg_calls
                 on = 0
